@@ -175,6 +175,24 @@ impl Report {
         let e = m.entry(v.sig()).or_insert((0, v));
         e.0 += n;
     }
+    pub fn counters(&self) -> (u64, u64, u64, u64, u64) {
+        (self.evals.load(Ordering::Relaxed), self.nontrivial.load(Ordering::Relaxed), self.states.load(Ordering::Relaxed), self.transitions.load(Ordering::Relaxed), self.traces.load(Ordering::Relaxed))
+    }
+    pub fn outcomes_json(&self) -> Value {
+        json!(*self.outcomes.lock().unwrap())
+    }
+    pub fn scopes_json(&self) -> Value {
+        Value::Array(self.scopes.lock().unwrap().clone())
+    }
+    pub fn samples_json(&self) -> Value {
+        Value::Array(self.samples.lock().unwrap().clone())
+    }
+    pub fn machinery_json(&self) -> Value {
+        json!(*self.machinery.lock().unwrap())
+    }
+    pub fn take_violations(&self) -> Vec<Violation> {
+        self.viols.lock().unwrap().values().map(|x| x.1.clone()).collect()
+    }
     pub fn set_extra(&self, k: &str, v: Value) {
         self.extra.lock().unwrap().insert(k.into(), v);
     }
